@@ -29,6 +29,11 @@ class World:
             self.uid += 1
             o = dict(uid="u%03d" % self.uid, ts=self.rng.choice(self.tsvals), gen=1)
             self.live[k] = o
+        elif respec and self.rng.chance(1, 10):
+            # the object was deleted and re-created under the same name and the controller saw the pair as ONE update (informer
+            # relist after a dropped watch, coalesced queue entry): new UID and creation time, generation starts again at 1
+            self.uid += 1
+            o.update(uid="u%03d" % self.uid, ts=self.rng.choice(self.tsvals), gen=1)
         elif respec:
             o["gen"] += 1
         return o
@@ -106,11 +111,14 @@ def gen_vsr(rng, w):
     ns, name = rng.choice(NSS), rng.choice(["r1", "r2"])
     o = w.ident("vsr", ns, name)
     host = rng.choice(HOSTS)
-    kind = rng.below(5)
+    kind = rng.below(6)
     if kind == 0:
         subs = ["=/e"]
     elif kind == 1:
         subs = ["~^/x"]
+    elif kind == 5:
+        # no subroutes at all: valid on its own and for a prefix route, not for an exact / regex route (which wants exactly one)
+        subs = []
     else:
         subs = rng.shuffle(["/r", "/r/a", "/r/b", "/s", "/s/a", "/t"])[: 1 + rng.below(3)]
     cls = rng.weighted([("1", 10), ("0", 2), ("n", 2)])
